@@ -14,6 +14,13 @@
 //!            e (quote: Err(RecordExists))  E (quote: Err(other))  n (NetworkError)  c (OutboundFailure::ConnectionClosed,
 //!            also on the re-attempt)  d (reply channel dropped)  u (a response of another kind); no token = d
 //! Output: `ok <ids of the peers whose quote is returned, ascending>` | `err notenough` | `err noresponses` | `err <other>`
+//!   flow <peer 0..4> <live1> <paid1> <live2> <paid2>
+//!     two fetches of the same address over the honest peers 0..4, one second apart; peer `<peer>`'s quote reports
+//!     (live1, paid1) in the first and (live2, paid2) in the second. Besides the fetch results the harness reports whether
+//!     the client handed the quotes it collected to ANYONE (any `LocalSwarmCmd`, any request other than the
+//!     `GetStoreQuote` queries themselves): that is the only way a node's `quotes_verification` /
+//!     `historical_verify` / `NodeIssue::BadQuoting` could ever see them.
+//! Output: `<fetch 1> ; <fetch 2> ; relayed=none|some`
 use ant_evm::{PaymentQuote, QuotingMetrics, RewardsAddress};
 use ant_networking::verif::{LocalSwarmCmd, NetworkSwarmCmd};
 use ant_networking::{Network, NetworkError};
@@ -59,8 +66,9 @@ fn other_content() -> XorName {
 
 /// a quote for `content` carrying `key_of`'s public key, signed by `signed_by`
 fn make_quote(key_of: &Keypair, signed_by: Option<&Keypair>, content: XorName) -> PaymentQuote {
-    let timestamp = std::time::SystemTime::now();
-    let quoting_metrics = QuotingMetrics::default();
+    make_quote_with(key_of, signed_by, content, QuotingMetrics::default(), std::time::SystemTime::now())
+}
+fn make_quote_with(key_of: &Keypair, signed_by: Option<&Keypair>, content: XorName, quoting_metrics: QuotingMetrics, timestamp: std::time::SystemTime) -> PaymentQuote {
     let rewards_address = RewardsAddress::new([0x11; 20]);
     let bytes = PaymentQuote::bytes_for_signing(content, timestamp, &quoting_metrics, &rewards_address);
     let signature = match signed_by {
@@ -172,8 +180,15 @@ type ReplyTx = oneshot::Sender<std::result::Result<Response, NetworkError>>;
 
 /// run the real call, playing the swarm driver; returns the result and the peers that were asked
 fn run_case(rt: &tokio::runtime::Runtime, c: &Case) -> (Option<Result<Vec<(PeerId, PaymentQuote)>, NetworkError>>, Vec<PeerId>) {
+    let (r, asked, _) = run_case_relay(rt, c);
+    (r, asked)
+}
+
+/// … and how many commands the client issued besides the closest-peers query and the `GetStoreQuote` requests
+fn run_case_relay(rt: &tokio::runtime::Runtime, c: &Case) -> (Option<Result<Vec<(PeerId, PaymentQuote)>, NetworkError>>, Vec<PeerId>, usize) {
     let (net_tx, mut net_rx) = mpsc::channel::<NetworkSwarmCmd>(10_000);
-    let (local_tx, _local_rx) = mpsc::channel::<LocalSwarmCmd>(10_000);
+    let (local_tx, mut local_rx) = mpsc::channel::<LocalSwarmCmd>(10_000);
+    let mut relayed = 0usize;
     let kp = self_keypair();
     let network = Network::new(net_tx, local_tx, PeerId::from(kp.public()), kp);
     let addr = NetworkAddress::from_chunk_address(ChunkAddress::new(requested()));
@@ -197,10 +212,15 @@ fn run_case(rt: &tokio::runtime::Runtime, c: &Case) -> (Option<Result<Vec<(PeerI
                             if let (Request::Query(Query::GetStoreQuote { .. }), Some(tx)) = (&req, sender) {
                                 asked.push(peer);
                                 pending.push((peer, tx));
+                            } else {
+                                relayed += 1;
                             }
                         }
-                        _ => {}
+                        _ => relayed += 1,
                     }
+                }
+                while local_rx.try_recv().is_ok() {
+                    relayed += 1;
                 }
             }
             if pending.is_empty() {
@@ -223,10 +243,81 @@ fn run_case(rt: &tokio::runtime::Runtime, c: &Case) -> (Option<Result<Vec<(PeerI
         }
         None
     });
-    (res, asked)
+    // whatever was queued by tasks the call spawned
+    rt.block_on(async {
+        for _ in 0..8 {
+            tokio::task::yield_now().await;
+        }
+    });
+    while net_rx.try_recv().is_ok() {
+        relayed += 1;
+    }
+    while local_rx.try_recv().is_ok() {
+        relayed += 1;
+    }
+    (res, asked, relayed)
+}
+
+fn show_result(res: &Option<Result<Vec<(PeerId, PaymentQuote)>, NetworkError>>) -> String {
+    match res {
+        None => "stuck".into(),
+        Some(Err(_)) => "err".into(),
+        Some(Ok(quotes)) => {
+            let mut ids: Vec<u64> = quotes.iter().filter_map(|(p, _)| peer_number(p)).collect();
+            ids.sort();
+            std::iter::once("ok".to_string()).chain(ids.iter().map(|i| i.to_string())).collect::<Vec<_>>().join(" ")
+        }
+    }
+}
+
+/// `flow`: two client fetches; what the quoted node reports goes down from the first to the second
+fn exec_flow(rt: &tokio::runtime::Runtime, line: &str, out: &mut Out) -> String {
+    let ws: Vec<&str> = line.split_whitespace().collect();
+    let nums: Option<Vec<u64>> = ws[1..].iter().map(|w| w.parse().ok()).collect();
+    let Some(v) = nums else { return "bad-op".into() };
+    if v.len() != 5 || v[0] > 4 {
+        return "bad-op".into();
+    }
+    let t0 = std::time::SystemTime::now() - std::time::Duration::from_secs(2);
+    let mut outs = vec![];
+    let mut relayed_total = 0usize;
+    let mut accepted_both = true;
+    for round in 0..2u64 {
+        let (live, paid) = if round == 0 { (v[1], v[2]) } else { (v[3], v[4]) };
+        let mut answers = BTreeMap::new();
+        for i in 0..5u64 {
+            let metrics = if i == v[0] {
+                QuotingMetrics { live_time: live, received_payment_count: paid as usize, ..QuotingMetrics::default() }
+            } else {
+                QuotingMetrics::default()
+            };
+            let q = make_quote_with(&keypair(i), Some(&keypair(i)), requested(), metrics, t0 + std::time::Duration::from_secs(round));
+            answers.insert(i, Answer::Resp(Response::Query(QueryResponse::GetStoreQuote { quote: Ok(q), peer_address: NetworkAddress::from_peer(pid(i)), storage_proofs: vec![] })));
+        }
+        let c = Case { found: (0..5).map(pid).collect(), ignore: vec![], ord: 0, answers };
+        let r = catch_unwind(AssertUnwindSafe(|| run_case_relay(rt, &c)));
+        let Ok((res, _asked, relayed)) = r else {
+            out.oracle_fail("no-panic", line, "get_store_quote_from_network panicked");
+            return "panic".into();
+        };
+        relayed_total += relayed;
+        if let Some(Ok(quotes)) = &res {
+            accepted_both &= quotes.iter().any(|(p, q)| *p == pid(v[0]) && q.quoting_metrics.received_payment_count == paid as usize && q.quoting_metrics.live_time == live);
+        } else {
+            accepted_both = false;
+        }
+        outs.push(show_result(&res));
+    }
+    if accepted_both && (v[3] < v[1] || v[4] < v[2]) {
+        out.count(if relayed_total == 0 { "flow:lesser-later-quote-seen-by-no-node" } else { "flow:lesser-later-quote-relayed" });
+    }
+    format!("{} ; {} ; relayed={}", outs[0], outs[1], if relayed_total == 0 { "none" } else { "some" })
 }
 
 fn exec(rt: &tokio::runtime::Runtime, line: &str, out: &mut Out, wrong_content_accepted: &mut u64) -> String {
+    if line.starts_with("flow ") {
+        return exec_flow(rt, line, out);
+    }
     let Some(c) = parse_case(line) else { return "bad-op".into() };
     let r = catch_unwind(AssertUnwindSafe(|| run_case(rt, &c)));
     let (res, asked) = match r {
@@ -369,6 +460,10 @@ const CORPUS: &[&str] = &[
     "fetch found=0.1.S.2.3 ignore=- ord=0 0=q:s:s:o 1=q:s:s:o 2=q:s:s:o 3=q:s:s:o",
     "fetch found=0.1.S.2.3.4 ignore=- ord=4 0=c 1=d 2=u 3=n 4=q:s:s:o",
     "fetch found=- ignore=- ord=0",
+    // K-q: the node quotes paid=10, then paid=3 one second later: both quotes are accepted for payment, nobody is told
+    "flow 1 10 10 10 3",
+    "flow 3 500 7 20 7",
+    "flow 0 5 5 6 6",
 ];
 
 fn main() {
@@ -382,6 +477,11 @@ fn main() {
             let mut rng = Rng::new(args.seed);
             let mut v: Vec<String> = CORPUS.iter().map(|s| s.to_string()).collect();
             for _ in 0..args.n {
+                if rng.chance(1, 40) {
+                    let (l, c) = (rng.below(1000), rng.below(1000));
+                    v.push(format!("flow {} {l} {c} {} {}", rng.below(5), if rng.chance(1, 2) { l.saturating_sub(rng.below(5)) } else { l + rng.below(5) }, if rng.chance(1, 2) { c.saturating_sub(rng.below(5)) } else { c + rng.below(5) }));
+                    continue;
+                }
                 v.push(gen_case(&mut rng));
             }
             v
@@ -390,6 +490,12 @@ fn main() {
     let mut wrong_content = 0u64;
     for line in &lines {
         let res = exec(&rt, line, &mut out, &mut wrong_content);
+        if line.starts_with("flow ") {
+            out.count(&format!("flow:{}", res.rsplit(' ').next().unwrap_or("?")));
+            out.nontrivial_case(line);
+            out.line(line.clone(), res);
+            continue;
+        }
         out.count(&format!("fetch:{}", res.split(' ').take(if res.starts_with("err") { 2 } else { 1 }).collect::<Vec<_>>().join("-")));
         for w in line.split_whitespace().skip(1) {
             if let Some((k, v)) = w.split_once('=') {
